@@ -117,14 +117,11 @@ Definition apply_tx (unalloc : sheet) (edicts : list edict) (opret : list bool)
 Definition out_get (opret : list bool) (res : list sheet * sheet) (o : nat) (id : N) : N :=
   if nth o opret false then 0 else get (nth o (fst res) []) id.
 
-Fixpoint burned_outs (opret : list bool) (al : list sheet) (id : N) : N :=
-  match opret, al with
-  | b :: r, s :: al' => (if b then get s id else 0) + burned_outs r al' id
-  | _, _ => 0
-  end.
-
+(* burned: what landed on OP_RETURN outputs plus leftovers that found no output *)
 Definition burn_get (opret : list bool) (res : list sheet * sheet) (id : N) : N :=
-  burned_outs opret (fst res) id + get (snd res) id.
+  fold_right (fun o acc => (if nth o opret false then get (nth o (fst res) []) id else 0) + acc)
+             0 (seq 0 (length opret))
+  + get (snd res) id.
 
 (* ------------------------------------------------------------ wallet inventory *)
 
@@ -203,18 +200,19 @@ Record sout := {
 }.
 
 (* ZeroValue / checked_add: Err 2 on a zero amount, Panic 2 on overflow *)
+Fixpoint required_runes (rs : sheet) (req : sheet) : Res sheet :=
+  match rs with
+  | [] => Ok req
+  | (id, amt) :: rs' =>
+    if amt =? 0 then Err 2
+    else let req' := add req id amt in
+         if overflow req' then Panic 2 else required_runes rs' req'
+  end.
+
 Fixpoint required_of (outs : list sout) (req : sheet) : Res sheet :=
   match outs with
   | [] => Ok req
-  | o :: r =>
-    (fix go (rs : sheet) (req : sheet) : Res sheet :=
-       match rs with
-       | [] => required_of r req
-       | (id, amt) :: rs' =>
-         if amt =? 0 then Err 2
-         else let req' := add req id amt in
-              if overflow req' then Panic 2 else go rs' req'
-       end) (s_runes o) req
+  | o :: r => do req' <- required_runes (s_runes o) req; required_of r req'
   end.
 
 Definition wants (req bal s : sheet) : bool :=
